@@ -136,18 +136,26 @@ def r1_census(ctx, M):
     total = 0
     fns = sorted(reach - excluded)
     parser = RP.find_parser(ctx)[2][0]
-    for fn in fns:
+    covered_inline = set()
+    ordered = [f for f in fns if ctx.facts.bodies[f]["kind"] != "closure"] + [f for f in fns if ctx.facts.bodies[f]["kind"] == "closure"]
+    for fn in ordered:
         b = ctx.facts.bodies[fn]
         if b["kind"] == "promoted":
             continue
         if fn == spn:
             continue  # analysed under its object invariant below
+        if b["kind"] == "closure" and fn in covered_inline:
+            continue  # its sites were visited in context (expanded at its unique call site by a combinator model)
         if fn == inner:
             outs = M["outs"]
         elif fn == parser:
             outs = RP.analyse(ctx)["outs"]
         else:
             outs = ctx.px(fn)
+        for o in outs:
+            for ev in o.events:
+                if ev.get("fn") and ev["fn"] != fn:
+                    covered_inline.add(ev["fn"])
         sites = CEN.census(ctx, outs, typelevel=tl)
         for key, s in sorted(sites.items()):
             total += 1
